@@ -144,7 +144,7 @@ func genIndex(t *Tracer, m *Meta, tier string, seed int64) {
 	}
 	nMed, maxN := 40, 600
 	if !quick {
-		nMed, maxN = 300, 3000
+		nMed, maxN = 120, 2000
 	}
 	for i := 0; i < nMed; i++ {
 		fam := familyNames[i%len(familyNames)]
